@@ -17,7 +17,7 @@ ID = "C04"
 COQ_IMPORT = "Corr.CNodes"
 COQ_CASE_TYPE = "g_case"
 COQ_CHECK = "g_check"
-THEOREMS = ["c04_string_encoding_irrelevant", "c04_version_encoding_irrelevant", "c04_constructors_respect_numeric_similarity", "c04_constructors_respect_numeric_similarity"", "c04_views_blind_to_width_and_container", "c04_edges_bytes_or_str", "c04_empty_edges", "c04_rewrite"]
+THEOREMS = ["c04_string_encoding_irrelevant", "c04_version_encoding_irrelevant", "c04_constructors_respect_numeric_similarity", "c04_constructors_respect_numeric_similarity'", "c04_views_blind_to_width_and_container", "c04_edges_bytes_or_str", "c04_empty_edges", "c04_rewrite"]
 PROOF_FILES = ["Proofs/SimProofs.v", "Proofs/SerialProofs.v"]
 RULE = ("graphs of the C01 generator re-encoded by an INDEPENDENT raw-h5py encoder under random combinations of "
         "{variable/fixed-length strings} x {ASCII/UTF-8 charset} x {integer dtype i8..u64 wide enough for shapes and "
